@@ -208,7 +208,12 @@ impl Space for DocExprs {
             // two known structural deviations get their own signature space (see known_findings.txt)
             let marker = if feats.contains("axis:namespace") && fx.tree.nodes.iter().filter(|n| n.kind == XKind::Elem).count() > 1 {
                 "ns-nodes-of-several-elements/"
-            } else if feats.contains("axis:attribute") && has_defaulted_attribute(&self.docs[idx as usize]) {
+            } else if feats.contains("axis:attribute")
+                && has_defaulted_attribute(&self.docs[idx as usize])
+                // the known deviation collapses, re-orders or duplicates defaulted attributes; it does not make a
+                // selection empty
+                && !matches!(&got, Outcome::Val(g) if g == "nodes[]")
+            {
                 "dtd-defaulted-attribute-node/"
             } else {
                 ""
